@@ -1,10 +1,459 @@
-(* placeholder until VecMatProofs.v lands *)
-From Optyx Require Import Syntax VecMat.
-From Coq Require Import List ZArith.
+(* C11 - vector and matrix modelling operations denote their NumPy counterparts.
+   Only statements: every proof is `exact <lemma>` from VecMatProofs.v.  The reference
+   semantics (np_* on list R / list (list R)) is NumpySpec.v; ev / evm evaluate every
+   element tree of a vector / matrix object with SemR.evalR.  The statements below were
+   printed by Coq from the proved lemmas (tools: Check), so they are the proved ones. *)
+From Coq Require Import Reals QArith Qreals String List Arith Bool ZArith Lia Lra Sorted.
+From Optyx Require Import Syntax SemR VecMat NumpySpec VecMatProofs.
 Import ListNotations.
-Example C11_slice_examples :
-  slice_indices 5 (Some 1%Z) (Some 4%Z) None = Some [1; 2; 3] /\
-  slice_indices 5 None None (Some (-1)%Z) = Some [4; 3; 2; 1; 0] /\
-  slice_indices 5 None None (Some 0%Z) = None.
-Proof. repeat split; vm_compute; reflexivity. Qed.
-Print Assumptions C11_slice_examples.
+Close Scope Q_scope.
+Open Scope R_scope.
+
+Theorem C11_zidx_spec : forall (n : nat) (i : Z) (k : nat), zidx n i = Some k <-> (0 <= i < Z.of_nat n)%Z /\ k = Z.to_nat i \/ (- Z.of_nat n <= i < 0)%Z /\ k = Z.to_nat (Z.of_nat n + i).
+Proof. exact zidx_spec. Qed.
+Print Assumptions C11_zidx_spec.
+
+Theorem C11_v_getitem_correct : forall (rho penv : env) (v : vobj) (i : Z) (e : expr), v_getitem v i = RExpr e -> exists k : nat, zidx (vsize v) i = Some k /\ (k < vsize v)%nat /\ e = nth k (vel v) c0e /\ evalR rho penv e = nth k (ev rho penv v) 0.
+Proof. exact v_getitem_correct. Qed.
+Print Assumptions C11_v_getitem_correct.
+
+Theorem C11_v_slice_correct : forall (rho penv : env) (v : vobj) (a b c : option Z) (w : vobj), v_slice v a b c = RVec w -> exists idx : list nat, slice_indices (vsize v) a b c = Some idx /\ idx <> [] /\ vel w = select c0e (vel v) idx /\ vk w = KVar 0 /\ ev rho penv w = np_select (ev rho penv v) idx /\ Some (ev rho penv w) = np_slice (ev rho penv v) a b c.
+Proof. exact v_slice_correct. Qed.
+Print Assumptions C11_v_slice_correct.
+
+Theorem C11_m_getitem_correct : forall (rho penv : env) (m : mobj) (i j : Z) (e : expr), m_getitem m i j = RExpr e -> exists a b : nat, zidx (nrows m) i = Some a /\ zidx (ncols m) j = Some b /\ (a < nrows m)%nat /\ (b < ncols m)%nat /\ e = nth b (nth a (mrows m) []) c0e /\ evalR rho penv e = np_index2 (evm rho penv m) a b.
+Proof. exact m_getitem_correct. Qed.
+Print Assumptions C11_m_getitem_correct.
+
+Theorem C11_m_row_correct : forall (rho penv : env) (m : mobj) (i : Z) (a b c : option Z) (w : vobj), m_row m i a b c = RVec w -> exists (r : nat) (idx : list nat), zidx (nrows m) i = Some r /\ slice_indices (ncols m) a b c = Some idx /\ idx <> [] /\ vel w = select c0e (nth r (mrows m) []) idx /\ ev rho penv w = np_select (np_row (evm rho penv m) r) idx.
+Proof. exact m_row_correct. Qed.
+Print Assumptions C11_m_row_correct.
+
+Theorem C11_m_col_correct : forall (rho penv : env) (m : mobj) (a b c : option Z) (j : Z) (w : vobj), m_col m a b c j = RVec w -> exists (k : nat) (idx : list nat), zidx (ncols m) j = Some k /\ slice_indices (nrows m) a b c = Some idx /\ idx <> [] /\ vel w = map (fun r : list expr => nth k r c0e) (select [] (mrows m) idx) /\ ev rho penv w = np_col (np_select_rows (evm rho penv m) idx) k.
+Proof. exact m_col_correct. Qed.
+Print Assumptions C11_m_col_correct.
+
+Theorem C11_m_sub_correct : forall (rho penv : env) (m : mobj) (s1 e1 t1 s2 e2 t2 : option Z) (w : mobj), m_sub m s1 e1 t1 s2 e2 t2 = RMat w -> exists ri ci : list nat, slice_indices (nrows m) s1 e1 t1 = Some ri /\ slice_indices (ncols m) s2 e2 t2 = Some ci /\ ri <> [] /\ ci <> [] /\ mrows w = map (fun r : list expr => select c0e r ci) (select [] (mrows m) ri) /\ evm rho penv w = np_submatrix (evm rho penv m) ri ci.
+Proof. exact m_sub_correct. Qed.
+Print Assumptions C11_m_sub_correct.
+
+Theorem C11_m_T_correct : forall (rho penv : env) (m w : mobj), rectangular (mrows m) (ncols m) -> m_T m = RMat w -> evm rho penv w = np_transpose (evm rho penv m) /\ mrows w = map (fun j : nat => map (fun r : list expr => nth j r c0e) (mrows m)) (seq 0 (ncols m)) /\ misvar w = misvar m /\ nrows w = ncols m.
+Proof. exact m_T_correct. Qed.
+Print Assumptions C11_m_T_correct.
+
+Theorem C11_np_transpose_entry : forall (A : list (list R)) (i j : nat), rectangular A (np_ncols A) -> (i < Datatypes.length A)%nat -> (j < np_ncols A)%nat -> np_index2 (np_transpose A) j i = np_index2 A i j.
+Proof. exact np_transpose_entry. Qed.
+Print Assumptions C11_np_transpose_entry.
+
+Theorem C11_m_diagonal_correct : forall (rho penv : env) (m : mobj) (w : vobj), m_diagonal m = RVec w -> ev rho penv w = np_diag (evm rho penv m) /\ nrows m = ncols m /\ vel w = map (fun i : nat => nth i (nth i (mrows m) []) c0e) (seq 0 (nrows m)).
+Proof. exact m_diagonal_correct. Qed.
+Print Assumptions C11_m_diagonal_correct.
+
+Theorem C11_m_trace_correct : forall (rho penv : env) (m : mobj) (e : expr), m_trace m = RExpr e -> evalR rho penv e = np_trace (evm rho penv m) /\ nrows m = ncols m /\ nrows m <> 0%nat.
+Proof. exact m_trace_correct. Qed.
+Print Assumptions C11_m_trace_correct.
+
+Theorem C11_v_binop_scalar : forall (rho penv : env) (o : bop) (l : vobj) (q : Q) (w : vobj), o <> Pow -> v_binop o l (AScalar q) = RVec w -> ev rho penv w = np_ew_scalar_r o (ev rho penv l) (Q2R q) /\ vsize w = vsize l.
+Proof. exact v_binop_scalar. Qed.
+Print Assumptions C11_v_binop_scalar.
+
+Theorem C11_v_binop_pow_scalar : forall (rho penv : env) (l : vobj) (q : Q) (w : vobj), v_binop Pow l (AScalar q) = RVec w -> ev rho penv w = np_pow_scalar (ev rho penv l) q.
+Proof. exact v_binop_pow_scalar. Qed.
+Print Assumptions C11_v_binop_pow_scalar.
+
+Theorem C11_v_binop_vec : forall (rho penv : env) (o : bop) (l r w : vobj), pow_ok o (vel r) -> v_binop o l (AVec r) = RVec w -> ev rho penv w = np_ew o (ev rho penv l) (ev rho penv r) /\ vsize r = vsize l /\ vsize w = vsize l.
+Proof. exact v_binop_vec. Qed.
+Print Assumptions C11_v_binop_vec.
+
+Theorem C11_v_binop_arr1 : forall (rho penv : env) (o : bop) (l : vobj) (qs : list Q) (w : vobj), o <> Pow -> v_binop o l (AArr1 qs) = RVec w -> ev rho penv w = np_ew o (ev rho penv l) (map Q2R qs) /\ Datatypes.length qs = vsize l /\ vsize w = vsize l.
+Proof. exact v_binop_arr1. Qed.
+Print Assumptions C11_v_binop_arr1.
+
+Theorem C11_v_binop_pow_arr1 : forall (rho penv : env) (l : vobj) (qs : list Q) (w : vobj), v_binop Pow l (AArr1 qs) = RVec w -> ev rho penv w = np_pow_consts (ev rho penv l) qs /\ Datatypes.length qs = vsize l.
+Proof. exact v_binop_pow_arr1. Qed.
+Print Assumptions C11_v_binop_pow_arr1.
+
+Theorem C11_v_rbinop_scalar : forall (rho penv : env) (o : bop) (self : vobj) (q : Q) (w : vobj), pow_ok o (vel self) -> v_rbinop o self (AScalar q) = RVec w -> ev rho penv w = np_ew_scalar_l o (Q2R q) (ev rho penv self) /\ vsize w = vsize self.
+Proof. exact v_rbinop_scalar. Qed.
+Print Assumptions C11_v_rbinop_scalar.
+
+Theorem C11_v_rbinop_arr1 : forall (rho penv : env) (o : bop) (self : vobj) (qs : list Q) (w : vobj), pow_ok o (vel self) -> v_rbinop o self (AArr1 qs) = RVec w -> ev rho penv w = np_ew o (map Q2R qs) (ev rho penv self) /\ Datatypes.length qs = vsize self /\ vsize w = vsize self.
+Proof. exact v_rbinop_arr1. Qed.
+Print Assumptions C11_v_rbinop_arr1.
+
+Theorem C11_v_neg_correct : forall (rho penv : env) (v w : vobj), v_neg v = RVec w -> ev rho penv w = np_neg (ev rho penv v) /\ vsize w = vsize v.
+Proof. exact v_neg_correct. Qed.
+Print Assumptions C11_v_neg_correct.
+
+Theorem C11_m_binop_scalar : forall (rho penv : env) (o : bop) (l : mobj) (q : Q) (w : mobj), o <> Pow -> m_binop o l (AScalar q) = RMat w -> evm rho penv w = np_mew_scalar_r o (evm rho penv l) (Q2R q) /\ shape (mrows w) = shape (mrows l).
+Proof. exact m_binop_scalar. Qed.
+Print Assumptions C11_m_binop_scalar.
+
+Theorem C11_m_binop_pow_scalar : forall (rho penv : env) (l : mobj) (q : Q) (w : mobj), m_binop Pow l (AScalar q) = RMat w -> evm rho penv w = np_mpow_scalar (evm rho penv l) q.
+Proof. exact m_binop_pow_scalar. Qed.
+Print Assumptions C11_m_binop_pow_scalar.
+
+Theorem C11_m_binop_mat : forall (rho penv : env) (o : bop) (l r w : mobj), pow_ok o (mflat r) -> m_binop o l (AMat r) = RMat w -> evm rho penv w = np_mew o (evm rho penv l) (evm rho penv r) /\ shape (mrows r) = shape (mrows l) /\ shape (mrows w) = shape (mrows l).
+Proof. exact m_binop_mat. Qed.
+Print Assumptions C11_m_binop_mat.
+
+Theorem C11_m_binop_arr2 : forall (rho penv : env) (o : bop) (l : mobj) (q : list (list Q)) (w : mobj), o <> Pow -> m_binop o l (AArr2 q) = RMat w -> evm rho penv w = np_mew o (evm rho penv l) (map (map Q2R) q) /\ shape q = shape (mrows l) /\ shape (mrows w) = shape (mrows l).
+Proof. exact m_binop_arr2. Qed.
+Print Assumptions C11_m_binop_arr2.
+
+Theorem C11_m_binop_pow_arr2 : forall (rho penv : env) (l : mobj) (q : list (list Q)) (w : mobj), m_binop Pow l (AArr2 q) = RMat w -> evm rho penv w = np_mpow_consts (evm rho penv l) q /\ shape q = shape (mrows l).
+Proof. exact m_binop_pow_arr2. Qed.
+Print Assumptions C11_m_binop_pow_arr2.
+
+Theorem C11_m_rbinop_scalar : forall (rho penv : env) (o : bop) (self : mobj) (q : Q) (w : mobj), pow_ok o (mflat self) -> m_rbinop o self (AScalar q) = RMat w -> evm rho penv w = np_mew_scalar_l o (Q2R q) (evm rho penv self) /\ shape (mrows w) = shape (mrows self).
+Proof. exact m_rbinop_scalar. Qed.
+Print Assumptions C11_m_rbinop_scalar.
+
+Theorem C11_m_rbinop_arr2 : forall (rho penv : env) (o : bop) (self : mobj) (q : list (list Q)) (w : mobj), pow_ok o (mflat self) -> m_rbinop o self (AArr2 q) = RMat w -> evm rho penv w = np_mew o (map (map Q2R) q) (evm rho penv self) /\ shape q = shape (mrows self) /\ shape (mrows w) = shape (mrows self).
+Proof. exact m_rbinop_arr2. Qed.
+Print Assumptions C11_m_rbinop_arr2.
+
+Theorem C11_m_neg_correct : forall (rho penv : env) (m w : mobj), m_neg m = RMat w -> evm rho penv w = np_mneg (evm rho penv m) /\ shape (mrows w) = shape (mrows m).
+Proof. exact m_neg_correct. Qed.
+Print Assumptions C11_m_neg_correct.
+
+Theorem C11_v_sum_correct : forall (rho penv : env) (v : vobj) (e : expr), kind_wf (vk v) (vel v) = true -> v_sum v = RExpr e -> evalR rho penv e = np_sum (ev rho penv v).
+Proof. exact v_sum_correct. Qed.
+Print Assumptions C11_v_sum_correct.
+
+Theorem C11_v_dot_correct : forall (rho penv : env) (l r : vobj) (e : expr), v_dot l r = RExpr e -> evalR rho penv e = np_dot (ev rho penv l) (ev rho penv r) /\ vsize l = vsize r.
+Proof. exact v_dot_correct. Qed.
+Print Assumptions C11_v_dot_correct.
+
+Theorem C11_v_matmul_vec : forall (rho penv : env) (x w : vobj) (e : expr), v_matmul x (AVec w) = RExpr e -> evalR rho penv e = np_dot (ev rho penv x) (ev rho penv w) /\ vsize x = vsize w.
+Proof. exact v_matmul_vec. Qed.
+Print Assumptions C11_v_matmul_vec.
+
+Theorem C11_v_matmul_arr1 : forall (rho penv : env) (x : vobj) (qs : list Q) (e : expr), v_matmul x (AArr1 qs) = RExpr e -> evalR rho penv e = np_dot (map Q2R qs) (ev rho penv x) /\ Datatypes.length qs = vsize x.
+Proof. exact v_matmul_arr1. Qed.
+Print Assumptions C11_v_matmul_arr1.
+
+Theorem C11_v_rmatmul_arr1 : forall (rho penv : env) (x : vobj) (qs : list Q) (e : expr), v_rmatmul x (AArr1 qs) = RExpr e -> evalR rho penv e = np_dot (map Q2R qs) (ev rho penv x) /\ Datatypes.length qs = vsize x.
+Proof. exact v_rmatmul_arr1. Qed.
+Print Assumptions C11_v_rmatmul_arr1.
+
+Theorem C11_matvec_correct : forall (rho penv : env) (m : list (list Q)) (x w : vobj), matvec m x = RVec w -> ev rho penv w = np_matvec (map (map Q2R) m) (ev rho penv x) /\ rectangular m (vsize x) /\ m <> [] /\ vsize w = Datatypes.length m.
+Proof. exact matvec_correct. Qed.
+Print Assumptions C11_matvec_correct.
+
+Theorem C11_v_rmatmul_arr2 : forall (rho penv : env) (x : vobj) (m : list (list Q)) (w : vobj), v_rmatmul x (AArr2 m) = RVec w -> ev rho penv w = np_matvec (map (map Q2R) m) (ev rho penv x) /\ rectangular m (vsize x) /\ m <> [] /\ vsize w = Datatypes.length m.
+Proof. exact v_rmatmul_arr2. Qed.
+Print Assumptions C11_v_rmatmul_arr2.
+
+Theorem C11_matvec_total : forall (m : list (list Q)) (x : vobj), (exists w : vobj, matvec m x = RVec w) \/ matvec m x = RErr EDim.
+Proof. exact matvec_total. Qed.
+Print Assumptions C11_matvec_total.
+
+Theorem C11_v_dot_matvec_correct : forall (rho penv : env) (x : vobj) (m : list (list Q)) (y : vobj) (e : expr), kind_wf (vk x) (vel x) = true -> v_dot_matvec x m y = RExpr e -> evalR rho penv e = np_dot (ev rho penv x) (np_matvec (map (map Q2R) m) (ev rho penv y)) /\ Datatypes.length m = vsize x /\ rectangular m (vsize y).
+Proof. exact v_dot_matvec_correct. Qed.
+Print Assumptions C11_v_dot_matvec_correct.
+
+Theorem C11_v_dot_matvec_rewrites : forall (x : vobj) (m : list (list Q)) (i : N), vk x = KVar i -> forallb is_var (vel x) = true -> Datatypes.length m = vsize x -> rectangular m (vsize x) -> v_dot_matvec x m x = RExpr (QForm (vk x) (vel x) m).
+Proof. exact v_dot_matvec_rewrites. Qed.
+Print Assumptions C11_v_dot_matvec_rewrites.
+
+Theorem C11_v_norm2_correct : forall (rho penv : env) (x : vobj) (e : expr), v_norm x 2 = RExpr e -> evalR rho penv e = np_norm2 (ev rho penv x).
+Proof. exact v_norm2_correct. Qed.
+Print Assumptions C11_v_norm2_correct.
+
+Theorem C11_v_norm1_correct : forall (rho penv : env) (x : vobj) (e : expr), v_norm x 1 = RExpr e -> evalR rho penv e = np_norm1 (ev rho penv x).
+Proof. exact v_norm1_correct. Qed.
+Print Assumptions C11_v_norm1_correct.
+
+Theorem C11_v_norm_other : forall (x : vobj) (ord : Z), ord <> 2%Z -> ord <> 1%Z -> v_norm x ord = RErr EInvalid.
+Proof. exact v_norm_other. Qed.
+Print Assumptions C11_v_norm_other.
+
+Theorem C11_quad_form_correct : forall (rho penv : env) (x : vobj) (m : list (list Q)) (e : expr), quad_form x m = RExpr e -> evalR rho penv e = np_quad (ev rho penv x) (map (map Q2R) m) /\ Datatypes.length m = vsize x /\ rectangular m (vsize x).
+Proof. exact quad_form_correct. Qed.
+Print Assumptions C11_quad_form_correct.
+
+Theorem C11_m_sum_correct : forall (rho penv : env) (m : mobj) (e : expr), m_sum m = RExpr e -> evalR rho penv e = np_msum (evm rho penv m).
+Proof. exact m_sum_correct. Qed.
+Print Assumptions C11_m_sum_correct.
+
+Theorem C11_m_frob_correct : forall (rho penv : env) (m : mobj) (e : expr), m_frob m = RExpr e -> evalR rho penv e = np_frob (evm rho penv m).
+Proof. exact m_frob_correct. Qed.
+Print Assumptions C11_m_frob_correct.
+
+Theorem C11_m_matvec_correct : forall (rho penv : env) (m : mobj) (x w : vobj), m_matvec m x = RVec w -> ev rho penv w = np_matvec (evm rho penv m) (ev rho penv x) /\ ncols m = vsize x /\ vsize w = nrows m.
+Proof. exact m_matvec_correct. Qed.
+Print Assumptions C11_m_matvec_correct.
+
+Theorem C11_m_matvec_rows_full : forall (m : mobj) (x w : vobj), rectangular (mrows m) (ncols m) -> m_matvec m x = RVec w -> rectangular (mrows m) (vsize x).
+Proof. exact m_matvec_rows_full. Qed.
+Print Assumptions C11_m_matvec_rows_full.
+
+Theorem C11_v_getitem_out_of_range : forall (v : vobj) (i : Z), (i < - Z.of_nat (vsize v))%Z \/ (Z.of_nat (vsize v) <= i)%Z -> v_getitem v i = RErr EIndex.
+Proof. exact v_getitem_out_of_range. Qed.
+Print Assumptions C11_v_getitem_out_of_range.
+
+Theorem C11_m_getitem_out_of_range : forall (m : mobj) (i j : Z), ((i < - Z.of_nat (nrows m))%Z \/ (Z.of_nat (nrows m) <= i)%Z) \/ (j < - Z.of_nat (ncols m))%Z \/ (Z.of_nat (ncols m) <= j)%Z -> m_getitem m i j = RErr EIndex.
+Proof. exact m_getitem_out_of_range. Qed.
+Print Assumptions C11_m_getitem_out_of_range.
+
+Theorem C11_m_row_out_of_range : forall (m : mobj) (i : Z) (a b c : option Z), (i < - Z.of_nat (nrows m))%Z \/ (Z.of_nat (nrows m) <= i)%Z -> m_row m i a b c = RErr EIndex.
+Proof. exact m_row_out_of_range. Qed.
+Print Assumptions C11_m_row_out_of_range.
+
+Theorem C11_m_col_out_of_range : forall (m : mobj) (a b c : option Z) (j : Z), (j < - Z.of_nat (ncols m))%Z \/ (Z.of_nat (ncols m) <= j)%Z -> m_col m a b c j = RErr EIndex.
+Proof. exact m_col_out_of_range. Qed.
+Print Assumptions C11_m_col_out_of_range.
+
+Theorem C11_v_slice_empty : forall (v : vobj) (a b c : option Z), slice_indices (vsize v) a b c = Some [] -> v_slice v a b c = RErr EIndex.
+Proof. exact v_slice_empty. Qed.
+Print Assumptions C11_v_slice_empty.
+
+Theorem C11_m_row_empty : forall (m : mobj) (i : Z) (a b c : option Z), slice_indices (ncols m) a b c = Some [] -> m_row m i a b c = RErr EIndex.
+Proof. exact m_row_empty. Qed.
+Print Assumptions C11_m_row_empty.
+
+Theorem C11_m_col_empty : forall (m : mobj) (a b c : option Z) (j : Z), slice_indices (nrows m) a b c = Some [] -> m_col m a b c j = RErr EIndex.
+Proof. exact m_col_empty. Qed.
+Print Assumptions C11_m_col_empty.
+
+Theorem C11_m_sub_empty : forall (m : mobj) (s1 e1 t1 s2 e2 t2 : option Z) (ri ci : list nat), slice_indices (nrows m) s1 e1 t1 = Some ri -> slice_indices (ncols m) s2 e2 t2 = Some ci -> ri = [] \/ ci = [] -> m_sub m s1 e1 t1 s2 e2 t2 = RErr EIndex.
+Proof. exact m_sub_empty. Qed.
+Print Assumptions C11_m_sub_empty.
+
+Theorem C11_v_slice_step0 : forall (v : vobj) (a b : option Z), v_slice v a b (Some 0%Z) = RErr EInvalid.
+Proof. exact v_slice_step0. Qed.
+Print Assumptions C11_v_slice_step0.
+
+Theorem C11_m_sub_step0 : forall (m : mobj) (s1 e1 t1 s2 e2 t2 : option Z), t1 = Some 0%Z \/ t2 = Some 0%Z -> m_sub m s1 e1 t1 s2 e2 t2 = RErr EInvalid.
+Proof. exact m_sub_step0. Qed.
+Print Assumptions C11_m_sub_step0.
+
+Theorem C11_v_binop_vec_mismatch : forall (o : bop) (l w : vobj), vsize w <> vsize l -> v_binop o l (AVec w) = RErr EDim.
+Proof. exact v_binop_vec_mismatch. Qed.
+Print Assumptions C11_v_binop_vec_mismatch.
+
+Theorem C11_v_binop_arr1_mismatch : forall (o : bop) (l : vobj) (qs : list Q), Datatypes.length qs <> vsize l -> v_binop o l (AArr1 qs) = RErr EDim.
+Proof. exact v_binop_arr1_mismatch. Qed.
+Print Assumptions C11_v_binop_arr1_mismatch.
+
+Theorem C11_v_binop_arr2 : forall (o : bop) (l : vobj) (m : list (list Q)), v_binop o l (AArr2 m) = RErr EWrongDim.
+Proof. exact v_binop_arr2. Qed.
+Print Assumptions C11_v_binop_arr2.
+
+Theorem C11_v_binop_mat : forall (o : bop) (l : vobj) (m : mobj), v_binop o l (AMat m) = RErr EInvalid.
+Proof. exact v_binop_mat. Qed.
+Print Assumptions C11_v_binop_mat.
+
+Theorem C11_v_binop_other : forall (o : bop) (l : vobj), v_binop o l AOther = RErr EInvalid.
+Proof. exact v_binop_other. Qed.
+Print Assumptions C11_v_binop_other.
+
+Theorem C11_v_binop_size : forall (o : bop) (l : vobj) (r : arg) (w : vobj), v_binop o l r = RVec w -> vsize w = vsize l.
+Proof. exact v_binop_size. Qed.
+Print Assumptions C11_v_binop_size.
+
+Theorem C11_v_binop_never_expr_or_mat : forall (o : bop) (l : vobj) (r : arg), (forall e : expr, v_binop o l r <> RExpr e) /\ (forall m : mobj, v_binop o l r <> RMat m).
+Proof. exact v_binop_never_expr_or_mat. Qed.
+Print Assumptions C11_v_binop_never_expr_or_mat.
+
+Theorem C11_v_rbinop_arr1_mismatch : forall (o : bop) (self : vobj) (qs : list Q), Datatypes.length qs <> vsize self -> v_rbinop o self (AArr1 qs) = RErr EDim.
+Proof. exact v_rbinop_arr1_mismatch. Qed.
+Print Assumptions C11_v_rbinop_arr1_mismatch.
+
+Theorem C11_v_rbinop_arr2 : forall (o : bop) (self : vobj) (m : list (list Q)), v_rbinop o self (AArr2 m) = RErr EWrongDim.
+Proof. exact v_rbinop_arr2. Qed.
+Print Assumptions C11_v_rbinop_arr2.
+
+Theorem C11_v_rbinop_size : forall (o : bop) (self : vobj) (other : arg) (w : vobj), v_rbinop o self other = RVec w -> vsize w = vsize self.
+Proof. exact v_rbinop_size. Qed.
+Print Assumptions C11_v_rbinop_size.
+
+Theorem C11_v_dot_mismatch : forall l r : vobj, vsize l <> vsize r -> v_dot l r = RErr EDim.
+Proof. exact v_dot_mismatch. Qed.
+Print Assumptions C11_v_dot_mismatch.
+
+Theorem C11_v_matmul_vec_mismatch : forall x w : vobj, vsize x <> vsize w -> v_matmul x (AVec w) = RErr EDim.
+Proof. exact v_matmul_vec_mismatch. Qed.
+Print Assumptions C11_v_matmul_vec_mismatch.
+
+Theorem C11_v_matmul_arr1_mismatch : forall (x : vobj) (qs : list Q), Datatypes.length qs <> vsize x -> v_matmul x (AArr1 qs) = RErr EDim.
+Proof. exact v_matmul_arr1_mismatch. Qed.
+Print Assumptions C11_v_matmul_arr1_mismatch.
+
+Theorem C11_v_matmul_arr2 : forall (x : vobj) (m : list (list Q)), v_matmul x (AArr2 m) = RErr EWrongDim.
+Proof. exact v_matmul_arr2. Qed.
+Print Assumptions C11_v_matmul_arr2.
+
+Theorem C11_v_rmatmul_arr1_mismatch : forall (x : vobj) (qs : list Q), Datatypes.length qs <> vsize x -> v_rmatmul x (AArr1 qs) = RErr EDim.
+Proof. exact v_rmatmul_arr1_mismatch. Qed.
+Print Assumptions C11_v_rmatmul_arr1_mismatch.
+
+Theorem C11_matvec_mismatch : forall (m : list (list Q)) (x : vobj) (row : list Q), In row m -> Datatypes.length row <> vsize x -> matvec m x = RErr EDim.
+Proof. exact matvec_mismatch. Qed.
+Print Assumptions C11_matvec_mismatch.
+
+Theorem C11_matvec_empty : forall x : vobj, matvec [] x = RErr EDim.
+Proof. exact matvec_empty. Qed.
+Print Assumptions C11_matvec_empty.
+
+Theorem C11_quad_form_not_square : forall (x : vobj) (m : list (list Q)) (row : list Q), In row m -> Datatypes.length row <> Datatypes.length m -> quad_form x m = RErr ESquare.
+Proof. exact quad_form_not_square. Qed.
+Print Assumptions C11_quad_form_not_square.
+
+Theorem C11_quad_form_mismatch : forall (x : vobj) (m : list (list Q)), rectangular m (Datatypes.length m) -> Datatypes.length m <> vsize x -> quad_form x m = RErr EDim.
+Proof. exact quad_form_mismatch. Qed.
+Print Assumptions C11_quad_form_mismatch.
+
+Theorem C11_v_dot_matvec_mismatch : forall (x : vobj) (m : list (list Q)) (y : vobj), Datatypes.length m <> vsize x \/ (exists row : list Q, In row m /\ Datatypes.length row <> vsize y) -> kind_wf (vk x) (vel x) = true -> v_dot_matvec x m y = RErr EDim.
+Proof. exact v_dot_matvec_mismatch. Qed.
+Print Assumptions C11_v_dot_matvec_mismatch.
+
+Theorem C11_m_diagonal_not_square : forall m : mobj, nrows m <> ncols m -> m_diagonal m = RErr ESquare.
+Proof. exact m_diagonal_not_square. Qed.
+Print Assumptions C11_m_diagonal_not_square.
+
+Theorem C11_m_trace_not_square : forall m : mobj, nrows m <> ncols m -> m_trace m = RErr ESquare.
+Proof. exact m_trace_not_square. Qed.
+Print Assumptions C11_m_trace_not_square.
+
+Theorem C11_m_binop_mat_mismatch : forall (o : bop) (l w : mobj), shape (mrows l) <> shape (mrows w) -> m_binop o l (AMat w) = RErr EDim.
+Proof. exact m_binop_mat_mismatch. Qed.
+Print Assumptions C11_m_binop_mat_mismatch.
+
+Theorem C11_m_binop_arr2_mismatch : forall (o : bop) (l : mobj) (q : list (list Q)), shape (mrows l) <> shape q -> m_binop o l (AArr2 q) = RErr EDim.
+Proof. exact m_binop_arr2_mismatch. Qed.
+Print Assumptions C11_m_binop_arr2_mismatch.
+
+Theorem C11_m_rbinop_arr2_mismatch : forall (o : bop) (self : mobj) (q : list (list Q)), shape (mrows self) <> shape q -> m_rbinop o self (AArr2 q) = RErr EDim.
+Proof. exact m_rbinop_arr2_mismatch. Qed.
+Print Assumptions C11_m_rbinop_arr2_mismatch.
+
+Theorem C11_m_binop_arr1 : forall (o : bop) (l : mobj) (qs : list Q), m_binop o l (AArr1 qs) = RErr EDim.
+Proof. exact m_binop_arr1. Qed.
+Print Assumptions C11_m_binop_arr1.
+
+Theorem C11_m_binop_vec : forall (o : bop) (l : mobj) (v : vobj), m_binop o l (AVec v) = RErr EInvalid.
+Proof. exact m_binop_vec. Qed.
+Print Assumptions C11_m_binop_vec.
+
+Theorem C11_m_binop_shape : forall (o : bop) (l : mobj) (r : arg) (w : mobj), m_binop o l r = RMat w -> shape (mrows w) = shape (mrows l).
+Proof. exact m_binop_shape. Qed.
+Print Assumptions C11_m_binop_shape.
+
+Theorem C11_m_matvec_mismatch : forall (m : mobj) (x : vobj), ncols m <> vsize x -> m_matvec m x = RErr EDim.
+Proof. exact m_matvec_mismatch. Qed.
+Print Assumptions C11_m_matvec_mismatch.
+
+Theorem C11_shape_eqb_spec : forall a b : list (list expr), shape_eqb a b = true <-> shape a = shape b.
+Proof. exact shape_eqb_spec. Qed.
+Print Assumptions C11_shape_eqb_spec.
+
+Theorem C11_qshape_ok_spec : forall (a : list (list expr)) (q : list (list Q)), qshape_ok a q = true <-> shape a = shape q.
+Proof. exact qshape_ok_spec. Qed.
+Print Assumptions C11_qshape_ok_spec.
+
+Theorem C11_slice_indices_bound : forall (n : nat) (a b c : option Z) (idx : list nat), slice_indices n a b c = Some idx -> Forall (fun k : nat => (k < n)%nat) idx.
+Proof. exact slice_indices_bound. Qed.
+Print Assumptions C11_slice_indices_bound.
+
+Theorem C11_slice_indices_increasing : forall (n : nat) (a b c : option Z) (idx : list nat), (0 < slice_step c)%Z -> slice_indices n a b c = Some idx -> StronglySorted lt idx.
+Proof. exact slice_indices_increasing. Qed.
+Print Assumptions C11_slice_indices_increasing.
+
+Theorem C11_slice_indices_decreasing : forall (n : nat) (a b c : option Z) (idx : list nat), (slice_step c < 0)%Z -> slice_indices n a b c = Some idx -> StronglySorted gt idx.
+Proof. exact slice_indices_decreasing. Qed.
+Print Assumptions C11_slice_indices_decreasing.
+
+Theorem C11_slice_indices_NoDup : forall (n : nat) (a b c : option Z) (idx : list nat), slice_indices n a b c = Some idx -> NoDup idx.
+Proof. exact slice_indices_NoDup. Qed.
+Print Assumptions C11_slice_indices_NoDup.
+
+Theorem C11_slice_indices_step0 : forall (n : nat) (a b : option Z), slice_indices n a b (Some 0%Z) = None.
+Proof. exact slice_indices_step0. Qed.
+Print Assumptions C11_slice_indices_step0.
+
+Theorem C11_slice_indices_defined : forall (n : nat) (a b c : option Z), slice_step c <> 0%Z -> exists idx : list nat, slice_indices n a b c = Some idx.
+Proof. exact slice_indices_defined. Qed.
+Print Assumptions C11_slice_indices_defined.
+
+Theorem C11_slice_indices_up_spec : forall (n : nat) (a b c : option Z) (idx : list nat) (k : nat), (0 < slice_step c)%Z -> slice_indices n a b c = Some idx -> In k idx <-> (exists j : nat, (start_up n a + Z.of_nat j * slice_step c < stop_up n b)%Z /\ k = Z.to_nat (start_up n a + Z.of_nat j * slice_step c)).
+Proof. exact slice_indices_up_spec. Qed.
+Print Assumptions C11_slice_indices_up_spec.
+
+Theorem C11_slice_indices_dn_spec : forall (n : nat) (a b c : option Z) (idx : list nat) (k : nat), (slice_step c < 0)%Z -> slice_indices n a b c = Some idx -> In k idx <-> (exists j : nat, (stop_dn n b < start_dn n a + Z.of_nat j * slice_step c)%Z /\ k = Z.to_nat (start_dn n a + Z.of_nat j * slice_step c)).
+Proof. exact slice_indices_dn_spec. Qed.
+Print Assumptions C11_slice_indices_dn_spec.
+
+Theorem C11_slice_full : forall n : nat, slice_indices n None None None = Some (seq 0 n).
+Proof. exact slice_full. Qed.
+Print Assumptions C11_slice_full.
+
+Theorem C11_slice_reverse : forall n : nat, slice_indices n None None (Some (-1)%Z) = Some (rev (seq 0 n)).
+Proof. exact slice_reverse. Qed.
+Print Assumptions C11_slice_reverse.
+
+Theorem C11_np_slice_full : forall l : vec, np_slice l None None None = Some l.
+Proof. exact np_slice_full. Qed.
+Print Assumptions C11_np_slice_full.
+
+Theorem C11_np_slice_reverse : forall l : vec, np_slice l None None (Some (-1)%Z) = Some (rev l).
+Proof. exact np_slice_reverse. Qed.
+Print Assumptions C11_np_slice_reverse.
+
+Theorem C11_v_slice_wf : forall (v : vobj) (i : N) (a b c : option Z) (w : vobj), vk v = KVar i -> kind_wf (vk v) (vel v) = true -> v_slice v a b c = RVec w -> kind_wf (vk w) (vel w) = true.
+Proof. exact v_slice_wf. Qed.
+Print Assumptions C11_v_slice_wf.
+
+Theorem C11_v_sum_slice : forall (rho penv : env) (v : vobj) (i : N) (a b c : option Z) (w : vobj) (e : expr), vk v = KVar i -> kind_wf (vk v) (vel v) = true -> v_slice v a b c = RVec w -> v_sum w = RExpr e -> exists idx : list nat, slice_indices (vsize v) a b c = Some idx /\ evalR rho penv e = np_sum (np_select (ev rho penv v) idx).
+Proof. exact v_sum_slice. Qed.
+Print Assumptions C11_v_sum_slice.
+
+Theorem C11_sym_rows_symmetric : forall (names : nat -> nat -> string) (n i j : nat) (d : expr), (i < n)%nat -> (j < n)%nat -> nth j (nth i (sym_rows names n) []) d = nth i (nth j (sym_rows names n) []) d.
+Proof. exact sym_rows_symmetric. Qed.
+Print Assumptions C11_sym_rows_symmetric.
+
+Theorem C11_sym_rows_shape : forall (names : nat -> nat -> string) (n : nat), shape (sym_rows names n) = repeat n n.
+Proof. exact sym_rows_shape. Qed.
+Print Assumptions C11_sym_rows_shape.
+
+Example C11_m_matvec_example : exists w : vobj, m_matvec exM exX = RVec w /\ ev ex_rho (fun _ : string => 0) w = [14; 32].
+Proof. exact m_matvec_example. Qed.
+Print Assumptions C11_m_matvec_example.
+
+Example C11_m_matvec_example_np : np_matvec (evm ex_rho (fun _ : string => 0) exM) (ev ex_rho (fun _ : string => 0) exX) = [14; 32].
+Proof. exact m_matvec_example_np. Qed.
+Print Assumptions C11_m_matvec_example_np.
+
+Example C11_m_matvec_example_rejected : m_matvec exM {| vk := KVar 2; vel := [Var "x0"; Var "x1"] |} = RErr EDim.
+Proof. exact m_matvec_example_rejected. Qed.
+Print Assumptions C11_m_matvec_example_rejected.
+
+Example C11_v_binop_example_rejected : v_binop Add exX (AVec {| vk := KVar 2; vel := [Var "y0"; Var "y1"] |}) = RErr EDim.
+Proof. exact v_binop_example_rejected. Qed.
+Print Assumptions C11_v_binop_example_rejected.
+
+Example C11_v_slice_example : v_slice exX None None (Some (-1)%Z) = RVec {| vk := KVar 0; vel := [Var "x2"; Var "x1"; Var "x0"] |}.
+Proof. exact v_slice_example. Qed.
+Print Assumptions C11_v_slice_example.
+
+Example C11_m_T_example : m_T exM = RMat {| misvar := true; mrows := [[Var "a00"; Var "a10"]; [Var "a01"; Var "a11"]; [Var "a02"; Var "a12"]] |}.
+Proof. exact m_T_example. Qed.
+Print Assumptions C11_m_T_example.
+
+Example C11_v_sum_needs_wf : v_sum {| vk := KVar 0; vel := [Const 1] |} = RExpr (VSum 0 []) /\ evalR (fun _ : string => 0) (fun _ : string => 0) (VSum 0 []) = 0 /\ np_sum (ev (fun _ : string => 0) (fun _ : string => 0) {| vk := KVar 0; vel := [Const 1] |}) = 1.
+Proof. exact v_sum_needs_wf. Qed.
+Print Assumptions C11_v_sum_needs_wf.
+
+Example C11_v_binop_pow_literal : v_binop Pow {| vk := KExpr; vel := [Var "x"] |} (AVec {| vk := KExpr; vel := [Const 2] |}) = RVec {| vk := KExpr; vel := [Bin Pow (Var "x") (Const 2)] |} /\ (forall rho penv : env, evalR rho penv (Bin Pow (Var "x") (Const 2)) = rho "x" * (rho "x" * 1)).
+Proof. exact v_binop_pow_literal. Qed.
+Print Assumptions C11_v_binop_pow_literal.
+
+Example C11_m_trace_empty : m_trace {| misvar := true; mrows := [] |} = RErr ESquare.
+Proof. exact m_trace_empty. Qed.
+Print Assumptions C11_m_trace_empty.
+
+Example C11_m_T_ragged : m_T {| misvar := false; mrows := [[Var "a"; Var "b"]; [Var "c"]] |} = RMat {| misvar := false; mrows := [[Var "a"; Var "c"]; [Var "b"; c0e]] |}.
+Proof. exact m_T_ragged. Qed.
+Print Assumptions C11_m_T_ragged.
+
